@@ -94,7 +94,7 @@ static void one_reloc_t(bool x64) {
   untouched_except(sid, SRC + LEAD, SRC + LEAD + VS, 9, 0, 0);
   uint64_t w = load_le(word, VS);
   V_ASSERT((w & ~F::field_mask()) == w0, "bits outside the relocated field are untouched");
-  if (base == Globals::kNoBaseAddress) { V_ASSERT(err == Error::kInvalidArgument && w == w0, "relocating to kNoBaseAddress is refused"); V_WITNESS("no-base-refused"); return; }
+  if (base == Globals::kNoBaseAddress) { V_ASSERT(err == Error::kInvalidArgument && w == w0, "relocating to kNoBaseAddress is refused"); V_WITNESS_MARK(0); return; }
   if (err != Error::kOk) { V_ASSERT(w == w0, "a refused relocation leaves the field unpatched"); }
   else {
     V_ASSERT(c->_base_address == base, "base address recorded");
@@ -103,23 +103,23 @@ static void one_reloc_t(bool x64) {
   uint64_t dec = F::decode(w);
   uint64_t next_ip = base + soff + SRC + region;  // address of the end of the relocated region (x86: next instruction)
   if (type == RelocType::kAbsToAbs) {
-    if (err == Error::kOk) { V_ASSERT(dec == payload, "AbsToAbs: field holds the absolute target"); V_WITNESS("abs-to-abs"); }
+    if (err == Error::kOk) { V_ASSERT(dec == payload, "AbsToAbs: field holds the absolute target"); V_WITNESS_MARK(1); }
   }
   else if (type == RelocType::kRelToAbs) {
     if (!has_target) V_ASSERT(err == Error::kInvalidRelocEntry, "RelToAbs without a target section is refused");
-    if (err == Error::kOk) { V_ASSERT(dec == base + toff + payload, "RelToAbs: field holds base plus section offset plus label offset (never truncated)"); V_WITNESS("rel-to-abs"); }
-    else V_WITNESS("rel-to-abs-refused");
+    if (err == Error::kOk) { V_ASSERT(dec == base + toff + payload, "RelToAbs: field holds base plus section offset plus label offset (never truncated)"); V_WITNESS_MARK(2); }
+    else V_WITNESS_MARK(3);
   }
   else if (type == RelocType::kAbsToRel) {
     if (err == Error::kOk) {
       if (x64) V_ASSERT(next_ip + dec == payload, "AbsToRel 64-bit: end of region plus displacement is the absolute target");
       else V_ASSERT(uint32_t(next_ip + dec) == uint32_t(payload), "AbsToRel 32-bit: end of region plus displacement is the target modulo 2 to the 32");
-      V_WITNESS("abs-to-rel");
+      V_WITNESS_MARK(4);
     }
     else {
       // completeness for the x86 rel32 format: a target within +-2 GiB (64-bit) / any target (32-bit) must be accepted
       if (K == kFmtS4) V_ASSERT(x64 && int64_t(payload - next_ip) != int64_t(int32_t(payload - next_ip)), "AbsToRel rel32: refused only when the target is out of the 32-bit range");
-      V_WITNESS("abs-to-rel-refused");
+      V_WITNESS_MARK(5);
     }
   }
   else V_ASSERT(err == Error::kInvalidRelocEntry, "unsupported relocation type is refused");
@@ -133,7 +133,8 @@ static void one_reloc(bool x64) {
   else if (tsel == 2) one_reloc_t<K, SRC, LEAD, RelocType::kAbsToRel>(x64);
   else one_reloc_t<K, SRC, LEAD, RelocType::kSectionRelative>(x64);
 }
-#define ONE_RELOC(name, K, SRC, LEAD) HARNESS name() { one_reloc<K, SRC, LEAD>(nondet_bool()); }
+#define RELOC_WITNESSES V_WITNESS_EMIT(0, "no-base-refused"); V_WITNESS_EMIT(1, "abs-to-abs"); V_WITNESS_EMIT(2, "rel-to-abs"); V_WITNESS_EMIT(3, "rel-to-abs-refused"); V_WITNESS_EMIT(4, "abs-to-rel"); V_WITNESS_EMIT(5, "abs-to-rel-refused");
+#define ONE_RELOC(name, K, SRC, LEAD) HARNESS name() { chenv::wit_mask = 0; one_reloc<K, SRC, LEAD>(nondet_bool()); RELOC_WITNESSES }
 ONE_RELOC(h_reloc_u1, kFmtU1, 5, 0)
 ONE_RELOC(h_reloc_u2, kFmtU2, 6, 0)
 ONE_RELOC(h_reloc_u4, kFmtU4, 3, 2)    // 32-bit [label+disp] / [rip]: opcode + modrm, disp32, optional immediate
@@ -141,11 +142,11 @@ ONE_RELOC(h_reloc_u8, kFmtU8, 8, 0)
 ONE_RELOC(h_reloc_s1, kFmtS1, 2, 1)    // jecxz / loop imm
 ONE_RELOC(h_reloc_s4, kFmtS4, 1, 3)    // call/jmp imm, rip-relative [abs]
 ONE_RELOC(h_reloc_s8, kFmtS8, 0, 0)
-HARNESS h_reloc_a64_imm26() { one_reloc<kFmtA64Imm26, 4, 0>(true); }
-HARNESS h_reloc_a64_imm19() { one_reloc<kFmtA64Imm19, 8, 0>(true); }
-HARNESS h_reloc_a64_imm14() { one_reloc<kFmtA64Imm14, 0, 0>(true); }
-HARNESS h_reloc_a64_adr() { one_reloc<kFmtA64Adr, 12, 0>(true); }
-HARNESS h_reloc_a64_adrp() { one_reloc<kFmtA64Adrp, 4, 0>(true); }
+HARNESS h_reloc_a64_imm26() { chenv::wit_mask = 0; one_reloc<kFmtA64Imm26, 4, 0>(true); RELOC_WITNESSES }
+HARNESS h_reloc_a64_imm19() { chenv::wit_mask = 0; one_reloc<kFmtA64Imm19, 8, 0>(true); RELOC_WITNESSES }
+HARNESS h_reloc_a64_imm14() { chenv::wit_mask = 0; one_reloc<kFmtA64Imm14, 0, 0>(true); RELOC_WITNESSES }
+HARNESS h_reloc_a64_adr() { chenv::wit_mask = 0; one_reloc<kFmtA64Adr, 12, 0>(true); RELOC_WITNESSES }
+HARNESS h_reloc_a64_adrp() { chenv::wit_mask = 0; one_reloc<kFmtA64Adrp, 4, 0>(true); RELOC_WITNESSES }
 
 // ---------------------------------------------------------------------------------------------------------------------
 // Expression relocation as embed_label_delta creates it: (label - base_label), signed field of 1/2/4/8 bytes; labels bound in
@@ -175,21 +176,20 @@ static void expr_reloc() {
   uint64_t w = load_le(word, VS);
   if (id_b != lb || !a_bound || !b_bound) {
     V_ASSERT(err != Error::kOk && w == 0, "expression over an invalid or unbound label is refused and nothing is written");
-    if (a_bound && id_b != lb) { V_ASSERT(err == Error::kInvalidLabel, "expression with an invalid label id: kInvalidLabel"); V_WITNESS("expr-invalid-label"); }
-    else if (id_b == lb) { V_ASSERT(err == Error::kExpressionLabelNotBound, "expression over an unbound label: kExpressionLabelNotBound"); V_WITNESS("expr-unbound"); }
+    if (a_bound && id_b != lb) { V_ASSERT(err == Error::kInvalidLabel, "expression with an invalid label id: kInvalidLabel"); V_WITNESS_MARK(6); }
+    else if (id_b == lb) { V_ASSERT(err == Error::kExpressionLabelNotBound, "expression over an unbound label: kExpressionLabelNotBound"); V_WITNESS_MARK(7); }
     return;
   }
   uint64_t delta = (sec(sa)->_offset + oa) - (sec(sb)->_offset + ob);
   bool fits = VS == 8 || int64_t(delta) == (int64_t(delta << (64 - 8 * VS)) >> (64 - 8 * VS));
   V_ASSERT((err == Error::kOk) == fits, "label delta accepted iff it fits the signed field");
-  if (err == Error::kOk) { V_ASSERT(F::decode(w) == delta, "label delta field holds (section plus label) - (section plus base label)"); V_WITNESS("expr-delta"); }
-  else { V_ASSERT(err == Error::kInvalidRelocEntry && w == 0, "label delta that does not fit is reported and nothing is written"); if (VS < 8) V_WITNESS("expr-delta-refused"); }
+  if (err == Error::kOk) { V_ASSERT(F::decode(w) == delta, "label delta field holds (section plus label) - (section plus base label)"); V_WITNESS_MARK(8); }
+  else { V_ASSERT(err == Error::kInvalidRelocEntry && w == 0, "label delta that does not fit is reported and nothing is written"); if (VS < 8) V_WITNESS_MARK(9); }
 }
-HARNESS h_reloc_expr_1() { expr_reloc<kFmtS1>(); }
-HARNESS h_reloc_expr_2() { expr_reloc<kFmtS2>(); }
-HARNESS h_reloc_expr_4() { expr_reloc<kFmtS4>(); }
-HARNESS h_reloc_expr_8() { expr_reloc<kFmtS8>(); }
-
+HARNESS h_reloc_expr_1() { chenv::wit_mask = 0;  expr_reloc<kFmtS1>(); V_WITNESS_EMIT(6, "expr-invalid-label"); V_WITNESS_EMIT(7, "expr-unbound"); V_WITNESS_EMIT(8, "expr-delta"); V_WITNESS_EMIT(9, "expr-delta-refused"); }
+HARNESS h_reloc_expr_2() { chenv::wit_mask = 0;  expr_reloc<kFmtS2>(); V_WITNESS_EMIT(6, "expr-invalid-label"); V_WITNESS_EMIT(7, "expr-unbound"); V_WITNESS_EMIT(8, "expr-delta"); V_WITNESS_EMIT(9, "expr-delta-refused"); }
+HARNESS h_reloc_expr_4() { chenv::wit_mask = 0;  expr_reloc<kFmtS4>(); V_WITNESS_EMIT(6, "expr-invalid-label"); V_WITNESS_EMIT(7, "expr-unbound"); V_WITNESS_EMIT(8, "expr-delta"); V_WITNESS_EMIT(9, "expr-delta-refused"); }
+HARNESS h_reloc_expr_8() { chenv::wit_mask = 0;  expr_reloc<kFmtS8>(); V_WITNESS_EMIT(6, "expr-invalid-label"); V_WITNESS_EMIT(7, "expr-unbound"); V_WITNESS_EMIT(8, "expr-delta"); }
 // ---------------------------------------------------------------------------------------------------------------------
 // Two entries (+ a deleted one in front): each is applied independently of the other; a refused entry stops with an error.
 template<RelocType T1, RelocType T2>
@@ -218,21 +218,23 @@ static void two_relocs() {
     else V_ASSERT(x64 ? uint64_t(int64_t(int32_t(w1))) == want1 : uint32_t(w1) == uint32_t(want1), "two entries: first AbsToRel applied exactly");
     if (r2->_reloc_type == RelocType::kRelToAbs) V_ASSERT(w2 == want2, "two entries: second RelToAbs applied exactly");
     else V_ASSERT(x64 ? uint64_t(int64_t(int32_t(w2))) == want2 : uint32_t(w2) == uint32_t(want2), "two entries: second AbsToRel applied exactly");
-    V_WITNESS("two-relocs-ok");
+    V_WITNESS_MARK(10);
   }
   else {
     V_ASSERT(w2 == 0 || w1 != 0, "two entries: entries are applied in order");
-    V_WITNESS("two-relocs-refused");
+    V_WITNESS_MARK(11);
   }
   untouched_except(0, 2, 6, s2, 9, 13);
 }
 
 HARNESS h_reloc_two() {
+  chenv::wit_mask = 0;
   uint32_t sel = nondet_u8() & 3;
   if (sel == 0) two_relocs<RelocType::kRelToAbs, RelocType::kRelToAbs>();
   else if (sel == 1) two_relocs<RelocType::kRelToAbs, RelocType::kAbsToRel>();
   else if (sel == 2) two_relocs<RelocType::kAbsToRel, RelocType::kRelToAbs>();
   else two_relocs<RelocType::kAbsToRel, RelocType::kAbsToRel>();
+  V_WITNESS_EMIT(10, "two-relocs-ok"); V_WITNESS_EMIT(11, "two-relocs-refused");
 }
 
 // Entry whose region does not lie inside the section buffer: refused, nothing written.
